@@ -18,11 +18,14 @@ PROPERTY = "C04"
 RULE = (
     "Nested documents in which every leaf (paragraph, heading, fenced code block, '(target)=', unknown-directive fence, "
     "paragraph with an unknown role, paragraph with strikethrough, admonition with an unknown option) occupies known "
-    "source lines and carries a unique marker word, so the true first line of every construct is known by "
+    "source lines and carries a unique marker word (also a fenced code block without lexer, an unreferenced footnote "
+    "definition, a duplicate definition, a parsed-literal directive: its node may carry the directive's or its first "
+    "content line), so the true first line of every construct is known by "
     "construction. Wrappers, drawn recursively: block quote, bullet / ordered list (1-3 items), backtick and colon "
     "directives (note / warning / admonition with title) with {no options, ':k: v' block, '---' block} x {0,1,2 blank "
     "lines before the body} x {0,1 blank line before the closing fence}, colon div, and include of a generated file "
-    "(with / without start-line / start-after / both). (enum) every wrapper shape to depth 2 (thorough: 3) around every leaf kind; (random) "
+    "(with / without start-line / start-after / both). (entry) the same trees through the Sphinx entry point as well "
+    "(MystParser.parse inside a live application) and with 0-3 blank lines before the first block. (enum) every wrapper shape to depth 2 (thorough: 3) around every leaf kind; (random) "
     "Hypothesis trees to depth 5. Oracle on the pre-transform doctree: the node holding a marker has line == true "
     "line; its chain of container ancestors (block_quote, bullet_list / enumerated_list, list_item, admonition node, "
     "container) carries, in order, the first lines of the corresponding wrappers; every MyST warning for a marked "
@@ -40,7 +43,7 @@ FLOOR = {"quick": 400, "thorough": 8000}
 
 EXTS = ["colon_fence", "strikethrough", "deflist"]
 LEAF_KINDS = ["para", "para2", "heading", "code", "target", "unknown_dir", "unknown_role", "strike", "bad_option", "dupdef",
-              "unref_foot", "code_nolexer"]
+              "unref_foot", "code_nolexer", "parsed_lit"]
 TRACKED = ("block_quote", "bullet_list", "enumerated_list", "list_item", "note", "warning", "admonition", "container", "compound")
 
 _known = None
@@ -82,6 +85,9 @@ def emit(node, ctx, line0, chain, file):
         elif k == "code_nolexer":
             # a language the highlighter has no lexer for (highlighting is on, the docutils default)
             lines = ["~~~mermaid", f"{m} --> x", "~~~"]
+        elif k == "parsed_lit":
+            # a docutils directive that numbers its own node (from the content offset the directive is given)
+            lines = ["~~~{parsed-literal}", f"{m} lit", "~~~"]
         elif k == "target":
             lines = [f"({m.lower()})=", f"after target {m}"]
         elif k == "unknown_dir":
@@ -181,10 +187,11 @@ def emit(node, ctx, line0, chain, file):
 
 def build(tree):
     """-> (text, ctx).  Handles the 'needs a blank line' re-emission by normalising the tree first."""
+    lead = tree.get("lead", 0)          # blank lines before the first block: every true line moves down with them
     tree = normalise(tree)
     ctx = Ctx()
-    lines = emit(tree, ctx, 1, [], None)
-    return "\n".join(lines) + "\n", ctx
+    lines = emit(tree, ctx, 1 + lead, [], None)
+    return "\n" * lead + "\n".join(lines) + "\n", ctx
 
 
 def first_line_of(node):
@@ -214,7 +221,25 @@ def normalise(node):
     return n
 
 
+_SPHINX = {}
+
+
+def _sphinx_project():
+    """One live Sphinx application per worker process (documents are parsed inside it one after the other)."""
+    pid = os.getpid()
+    if pid not in _SPHINX:
+        import atexit
+
+        proj = front.SphinxProject(confoverrides={"myst_enable_extensions": EXTS})
+        _SPHINX.clear()
+        _SPHINX[pid] = proj
+        atexit.register(lambda: pid == os.getpid() and proj.close())
+    return _SPHINX[pid]
+
+
 def shape(node):
+    if node.get("via") == "sphinx" or node.get("lead"):
+        return f"{node.get('via', 'docutils')}:lead{node.get('lead', 0)}:" + shape({k: v for k, v in node.items() if k not in ("via", "lead")})
     t = node["t"]
     if t == "leaf":
         return node["kind"]
@@ -261,21 +286,34 @@ def check_case(acc, tree) -> list[dict]:
 
     mk = (acc or Acc(PROPERTY, "replay")).violation
     text, ctx = build(tree)
-    tmp = tempfile.mkdtemp(prefix="verif-c04-")
-    try:
-        for name, content in ctx.files.items():
-            with open(os.path.join(tmp, name), "w") as fh:
-                fh.write(content)
+    via = tree.get("via", "docutils")
+    if via == "sphinx":
+        # the Sphinx entry point (MystParser.parse inside a live application): same text, same true lines
+        proj = _sphinx_project()
+        tmp = proj.src
         src = os.path.join(tmp, "main.md")
         try:
-            doc, warn = front.docutils_parse(text, source_path=src, settings={"myst_enable_extensions": EXTS,
-                                                                              "myst_highlight_code_blocks": True})
+            doc, warn = front.sphinx_parse_pre(text, proj, "main")
         except Exception as exc:  # noqa: BLE001
             return [mk(f"C04:render-raises:{type(exc).__name__}", tree, "document", f"{type(exc).__name__}: {exc}")]
-    finally:
-        shutil.rmtree(tmp, ignore_errors=True)
+        # Sphinx' own rendering of a location whose file it has not registered ('main.md.rst'): not MyST's doing
+        warn = warn.replace("main.md.rst:", "main.md:")
+    else:
+        tmp = tempfile.mkdtemp(prefix="verif-c04-")
+        try:
+            for name, content in ctx.files.items():
+                with open(os.path.join(tmp, name), "w") as fh:
+                    fh.write(content)
+            src = os.path.join(tmp, "main.md")
+            try:
+                doc, warn = front.docutils_parse(text, source_path=src, settings={"myst_enable_extensions": EXTS,
+                                                                                  "myst_highlight_code_blocks": True})
+            except Exception as exc:  # noqa: BLE001
+                return [mk(f"C04:render-raises:{type(exc).__name__}", tree, "document", f"{type(exc).__name__}: {exc}")]
+        finally:
+            shutil.rmtree(tmp, ignore_errors=True)
     vs = []
-    wl = front.warning_lines(warn)
+    wl = [w.replace(": WARNING: ", ": ", 1) for w in front.warning_lines(warn)] if via == "sphinx" else front.warning_lines(warn)
     inc = has(tree, lambda n: n["t"] == "include")
 
     def sig(base, leaf, expected=None, observed=None):
@@ -298,7 +336,7 @@ def check_case(acc, tree) -> list[dict]:
         elif k == "heading":
             cands = [p for p in doc.findall(lambda n: isinstance(n, (nodes.title, nodes.rubric))) if m in p.astext()]
             node = cands[0] if cands else None
-        elif k in ("code", "code_nolexer"):
+        elif k in ("code", "code_nolexer", "parsed_lit"):
             cands = [p for p in doc.findall(nodes.literal_block) if m in p.astext() and not isinstance(p.parent, nodes.system_message)]
             node = cands[0] if cands else None
         elif k == "target":
@@ -311,7 +349,15 @@ def check_case(acc, tree) -> list[dict]:
             if node is None:
                 vs.append(mk(sig("C04:marked-node-missing", leaf), tree, {"marker": m, "kind": k}, None))
                 continue
-            if node.line != line:
+            if k == "parsed_lit":
+                # the directive's first line, or its first content line (what docutils' own parser reports for it)
+                if node.line not in (line, line + 1):
+                    # (one recorded finding, in the main file and in included files alike: the line is the directive's
+                    # content offset + 1, counted from the directive instead of from the start of the file)
+                    vs.append(mk("C04:node-line:parsed_lit:relative-to-directive" if node.line == 1
+                                 else sig("C04:node-line:parsed_lit", leaf, line, node.line), tree,
+                                 {"marker": m, "kind": k, "line": [line, line + 1]}, {"line": node.line}))
+            elif node.line != line:
                 vs.append(mk(sig(f"C04:node-line:{k}", leaf, line, node.line), tree, {"marker": m, "kind": k, "line": line}, {"line": node.line}))
             if k == "heading" and isinstance(node, nodes.title) and node.parent.line != line:
                 vs.append(mk(sig("C04:node-line:section", leaf, line, node.parent.line), tree, {"marker": m, "line": line}, {"line": node.parent.line}))
@@ -364,7 +410,7 @@ def check_case(acc, tree) -> list[dict]:
                         vs.append(mk(sig("C04:system-message-line", leaf), tree, {"line": got}, {"line": sms[0].get("line")}))
     # --- warnings raised by transforms (the unreferenced-footnote detector): same file and line rules
     foots = [lf for lf in ctx.leaves if lf["kind"] == "unref_foot"]
-    if foots:
+    if foots and via != "sphinx":
         tmp2 = tempfile.mkdtemp(prefix="verif-c04-")
         try:
             for name, content in ctx.files.items():
@@ -400,6 +446,7 @@ def check_case(acc, tree) -> list[dict]:
         hasdir = has(tree, lambda n: n["t"] == "dir")
         acc.case(shape(tree), d >= 2 and hasdir,
                  [f"depth:{min(d, 6)}"] + (["include"] if inc else []) + (["directive"] if hasdir else [])
+                 + ([f"via:sphinx:lead{tree.get('lead', 0)}"] if via == "sphinx" else ([f"lead:{tree['lead']}"] if tree.get("lead") else []))
                  + sorted({"leaf:" + lf["kind"] for lf in ctx.leaves}),
                  sample={"text": text, "leaves": [(lf["marker"], lf["kind"], lf["line"]) for lf in ctx.leaves][:8]})
     out, seen = [], set()
@@ -515,8 +562,18 @@ def sub_include(acc, shard, nshards, tier, seed):
             seed=shard_seed(seed, shard, 5), is_known=known().matches)
 
 
+def sub_entry(acc, shard, nshards, tier, seed):
+    """Both entry points (docutils Parser, Sphinx MystParser) x 0-3 blank lines before the first block."""
+    n = 60 if tier == "quick" else 1200
+    strat = st.builds(lambda t, via, lead: {**t, "via": via, "lead": lead}, tree_st(allow_include=False, max_leaves=6),
+                      st.sampled_from(["sphinx", "sphinx", "docutils"]), st.sampled_from([0, 1, 1, 2, 3]))
+    hyp_run(acc, strat, lambda t: check_case(acc, t), max_examples=n,
+            seed=shard_seed(seed, shard, 6), is_known=known().matches)
+
+
 def plan(tier):
-    return [Sub("enum", sub_enum, 16), Sub("random", sub_random, 12), Sub("include", sub_include, 4)]
+    return [Sub("enum", sub_enum, 16), Sub("random", sub_random, 12), Sub("include", sub_include, 4),
+            Sub("entry", sub_entry, 4)]
 
 
 def replay(sub, input):
